@@ -308,6 +308,76 @@ func intLit(n int64) string {
 func sel(a, i string) string      { return "(select " + a + " " + i + ")" }
 func store(a, i, v string) string { return "(store " + a + " " + i + " " + v + ")" }
 
+// sexpArgs splits "(op a b c)" into op and its top-level arguments.
+func sexpArgs(t string) (string, []string) {
+	if len(t) < 2 || t[0] != '(' || t[len(t)-1] != ')' {
+		return "", nil
+	}
+	body := t[1 : len(t)-1]
+	var parts []string
+	depth, start := 0, 0
+	for i := 0; i < len(body); i++ {
+		switch body[i] {
+		case '(':
+			depth++
+		case ')':
+			depth--
+		case ' ':
+			if depth == 0 {
+				if i > start {
+					parts = append(parts, body[start:i])
+				}
+				start = i + 1
+			}
+		}
+	}
+	if start < len(body) {
+		parts = append(parts, body[start:])
+	}
+	if len(parts) == 0 {
+		return "", nil
+	}
+	return parts[0], parts[1:]
+}
+
+// simpSelect reduces (select (store A i v) j) syntactically: v when i and j are
+// the same term, the select on A when both are distinct integer literals.
+func simpSelect(t string) string {
+	for {
+		op, a := sexpArgs(t)
+		if op != "select" || len(a) != 2 {
+			return t
+		}
+		op2, b := sexpArgs(a[0])
+		if op2 != "store" || len(b) != 3 {
+			return t
+		}
+		if b[1] == a[1] {
+			return b[2]
+		}
+		if isIntLit(b[1]) && isIntLit(a[1]) {
+			t = sel(b[0], a[1])
+			continue
+		}
+		return t
+	}
+}
+
+func isIntLit(s string) bool {
+	if strings.HasPrefix(s, "(- ") && strings.HasSuffix(s, ")") {
+		s = s[3 : len(s)-1]
+	}
+	if s == "" {
+		return false
+	}
+	for _, c := range s {
+		if c < '0' || c > '9' {
+			return false
+		}
+	}
+	return true
+}
+
 // ---------- solver ----------
 
 type SolveResult struct {
